@@ -20,12 +20,18 @@ Tie K7 (binary, native, ALL 7 host variants sse:f0,f1,f2 avx2:f0,f1 avx512:f0,f1
       address of every memory operand (registers + an operand table made from objdump, checks/c19_step.py;
       opmask values of masked vector accesses included); both digests must be identical for all keys
       of a (variant, algorithm, direction, length class), single job and several jobs in flight.
+Direct API (checks/c19_direct.py, "api=direct:<name>" dimension of the harness scripts): ties (a), (b) and (d) also
+      drive the direct (non-job) entry points IMB_KASUMI_F8_1_BUFFER, _1_BUFFER_BIT, _2_BUFFER, _3_BUFFER, _4_BUFFER,
+      _N_BUFFER, IMB_KASUMI_F9_1_BUFFER, _F9_1_BUFFER_USER, IMB_SNOW3G_F8_1_BUFFER, _1_BUFFER_BIT, _2_BUFFER, _4_BUFFER,
+      _8_BUFFER, _8_BUFFER_MULTIKEY, _N_BUFFER, _N_BUFFER_MULTIKEY, IMB_SNOW3G_F9_1_BUFFER (the multi-buffer forms of the
+      same kernels, which no job reaches); only the one processing call is marked / traced, the expanded key schedule(s)
+      are the secret.  No Coq model of the direct API exists: tie (c) does not apply to them.
 Search: (a), (b) and (d) ARE the property's oracle on the real library; a broken proof obligation or
       a model/binary mismatch in (c) is reported with no-failing-input-found when they are clean.
 """
 import os, sys, json, re, time, subprocess, concurrent.futures as cf
 import xml.etree.ElementTree as ET
-from . import common, c19_step
+from . import common, c19_step, c19_direct
 from .common import Rng, Result, log
 
 PID = "C19"
@@ -296,9 +302,22 @@ def lib_frame(err):
     return None
 
 
-def err_signature(arch, err):
+def entry_frame(err):
+    """outermost library frame = the entry point the harness called (kasumi_f8_2_buffer_sse, snow3g_f8_n_buffer_avx2, ...)"""
+    last = None
+    for fr in err["stack"]:
+        if fr[3].startswith("libIPSec_MB"):
+            last = fr
+    return last
+
+
+def err_signature(arch, err, direct=False):
     fr = lib_frame(err)
-    return "%s:%s:%s:%s:%s" % (arch, err["kind"], fr[0], os.path.basename(fr[1]), fr[2]) if fr else "%s:%s:?" % (arch, err["kind"])
+    sig = "%s:%s:%s:%s:%s" % (arch, err["kind"], fr[0], os.path.basename(fr[1]), fr[2]) if fr else "%s:%s:?" % (arch, err["kind"])
+    if direct:
+        en = entry_frame(err)
+        sig = "%s:direct:%s:%s" % (arch, en[0] if en else "?", sig.split(":", 1)[1])
+    return sig
 
 
 def run_lackey(arch, lines, tag, symfile, exe, flt, dumps=(), timeout=1500):
@@ -355,8 +374,7 @@ def first_divergence(arch, line_a, line_b, symfile, exe, flt, tag):
         if la != lb:
             where = ""
             if last_i:
-                p = common.run(["addr2line", "-f", "-e", SO(), last_i])
-                where = " ".join(p.stdout.split())
+                where = "%s %s" % c19_step.source_of(os.path.realpath(SO()), int(last_i, 16))
             return {"event_index": n, "key_a": la.strip(), "key_b": lb.strip(), "last_common_instruction": last_i,
                     "source": where}
     return {"note": "traces differ in length only", "common_prefix_events": n}
@@ -409,6 +427,8 @@ def step_violation(res, sexe, images, t, ev, seed, is_known):
     rp = {"property": PID, "tie": "d", "kind": "native single-step trace differs between two keys: key-dependent %s"
           % {"branch": "branch", "address": "memory address"}.get(div.get("kind"), "trace"),
           "variant": t["variant"], "algo": t["algo"], "dir": t["dir"], "len": t["len"], "off": t["off"], "batch": t["batch"],
+          "api": ("direct:%s = %s(mgr, ...), %d buffer(s), lengths %s" % (t["api"], c19_direct.macro(t["api"]), len(t["lens"]), t["lens"]))
+          if t.get("direct") else "job (IMB_SUBMIT_JOB / IMB_FLUSH_JOB)",
           "lines_a": div.get("lines_a"), "lines_b": div.get("lines_b"), "differing_fields": fields,
           "first_divergence": {k: v for k, v in div.items() if k not in ("lines_a", "lines_b")},
           "signature": sig, "seed": seed}
@@ -467,6 +487,12 @@ def main(tier, seed):
             for k in range(nchunk):
                 part = mlines[k::nchunk]
                 jobs.append(("mc", arch, batch, k, part))
+    # direct (non-job) entry points: own processes, one call per group (--batch 1)
+    dmlines = c19_direct.memcheck_lines(rng, tier)
+    ndchunk = 2 if tier == "quick" else 4
+    for arch in ARCHS:
+        for k in range(ndchunk):
+            jobs.append(("mcd", arch, 1, k, dmlines[k::ndchunk]))
     # ---- (b) traces -----------------------------------------------------------------------
     classes = trace_classes(tier)
     tjobs = []
@@ -485,9 +511,32 @@ def main(tier, seed):
         for g, cis in groups.items():
             lines = [l for ci in cis for l in class_keys[ci]]
             jobs.append(("lk", arch, g, cis, lines))
+    # direct entry points: classes -(len(classes)+i) .. kept apart from the model-tied job classes
+    dclasses = c19_direct.trace_classes(tier)
+    dclass_keys = {}
+    for di, (api, lens, off) in enumerate(dclasses):
+        keys9 = key_variants(rng, c19_direct.API[api][5])
+        iv = rng.bytes(c19_direct.API[api][3])
+        mseed = rng.below(1 << 30)
+        order = c19_direct.KEY_PRIORITY[:c19_direct.trace_nkeys(api, tier)]
+        dclass_keys[di] = [c19_direct.line("d%dk%d" % (di, ki), api, lens, off, c19_direct.group_keys(api, len(lens), keys9, ki), iv, mseed)
+                           for ki in order]
+    dgroups = {}
+    kas_seen = 0
+    for di, c in enumerate(dclasses):
+        if c19_direct.family(c[0]) == "kasumi":          # expensive under lackey: two processes
+            g = ("direct_kasumi", kas_seen % 2)
+            kas_seen += 1
+        else:
+            g = ("direct_snow3g", 0)
+        dgroups.setdefault(g, []).append(di)
+    for arch in ARCHS:
+        for g, dis in dgroups.items():
+            jobs.append(("lkd", arch, g, dis, [l for di in dis for l in dclass_keys[di]]))
 
     # ---- (d) native single-step traces ------------------------------------------------------
     stasks = c19_step.plan(rng, tier, common.EXPECTED_VARIANTS, key_variants, KEYLEN, IVLEN)
+    stasks += c19_direct.step_plan(rng, tier, common.EXPECTED_VARIANTS, key_variants, IVLEN)
 
     # The library build directory is shared with other checks: if the .so is relinked while
     # valgrind runs, the symbol addresses no longer describe the executed image -> run again.
@@ -518,9 +567,10 @@ def main(tier, seed):
                 t_step[1] = time.time()
                 return r
             for j in sorted(jobs, key=lambda j: -len(j[4])):
-                if j[0] == "mc":
+                if j[0] in ("mc", "mcd"):
                     _, arch, batch, k, part = j
-                    futs[ex.submit(run_memcheck, arch, part, "%s_b%d_%d" % (arch, batch, k), batch, exe)] = j
+                    futs[ex.submit(run_memcheck, arch, part, "%s_%sb%d_%d" % (arch, "direct_" if j[0] == "mcd" else "", batch, k),
+                                   batch, exe)] = j
                 else:
                     _, arch, g, cis, lines = j
                     futs[ex.submit(run_lackey, arch, lines, "%s_%s_%d" % (arch, g[0], g[1]), symfile, exe, flt)] = j
@@ -558,15 +608,28 @@ def main(tier, seed):
         return False
 
     # ---- evaluate memcheck ------------------------------------------------------------------
-    mc_cases = mc_err = mc_notaint = mc_nontrivial = 0
+    mc_cases = mc_err = mc_notaint = mc_nontrivial = mcd_cases = 0
     viol_mc = {}
     harness_fail = []
+    direct_fn = {}        # entry point -> {variant: function offset} as dispatched by the manager
+    mcd_by_api = {}
     for (j, r) in results:
-        if j[0] != "mc":
+        if j[0] not in ("mc", "mcd"):
             continue
         _, arch, batch, k, part = j
+        is_direct = j[0] == "mcd"
         mc_cases += len(r["cases"])
-        mc_nontrivial += sum(1 for l in part if int(l.split()[3]) > 8)
+        if is_direct:
+            mcd_cases += len(r["cases"])
+            mc_nontrivial += sum(1 for l in part if "," in l.split()[3] or int(l.split()[3]) > 8)
+            for c in r["cases"]:
+                if c.get("api") and c.get("status") == "3":
+                    a = c["api"].split(":", 1)[1]
+                    mcd_by_api.setdefault(a, {}).setdefault(arch, 0)
+                    mcd_by_api[a][arch] += 1
+                    direct_fn.setdefault(a, {})["%s:f3 (valgrind)" % arch] = c.get("fn")
+        else:
+            mc_nontrivial += sum(1 for l in part if int(l.split()[3]) > 8)
         if r["crashed"] or len(r["cases"]) != len(part):
             harness_fail.append({"arch": arch, "batch": batch, "stderr": r["stderr"], "script": r["script"],
                                  "cases_returned": len(r["cases"]), "cases_sent": len(part)})
@@ -579,7 +642,7 @@ def main(tier, seed):
         if errs:
             ids = [c["id"] for c in r["cases"] if c.get("errs", "0") != "0"]
             for e in errs:
-                sig = err_signature(arch, e)
+                sig = err_signature(arch, e, is_direct)
                 if is_known(sig):
                     continue
                 viol_mc.setdefault(sig, {"arch": arch, "batch": batch, "error": e, "case_ids": ids, "lines": part})
@@ -591,22 +654,42 @@ def main(tier, seed):
     tie_ok = 0
     seg_events = 0
     samples = []
+    dtr_classes = dtr_pairs = 0
+    dtr_by_api = {}
     for (j, r) in results:
-        if j[0] != "lk":
+        if j[0] not in ("lk", "lkd"):
             continue
         _, arch, g, cis, lines = j
+        is_direct = j[0] == "lkd"
+        ckeys, clist = (dclass_keys, dclasses) if is_direct else (class_keys, classes)
         if len(r["segs"]) != len(lines) or len(r["cases"]) != len(lines):
             harness_fail.append({"arch": arch, "group": list(g), "note": "lackey run incomplete",
                                  "segments": len(r["segs"]), "expected": len(lines), "stderr": r["stderr"]})
             continue
         pos = 0
         for ci in cis:
-            n = len(class_keys[ci])
+            n = len(ckeys[ci])
             segs = r["segs"][pos:pos + n]
             cs = r["cases"][pos:pos + n]
-            cl = class_keys[ci]
+            cl = ckeys[ci]
             pos += n
-            c = classes[ci]
+            c = clist[ci]
+            if is_direct:
+                bad = [x for x in cs if x.get("status") != "3"]
+                if bad:
+                    harness_fail.append({"arch": arch, "note": "direct call did not complete", "case": bad[0], "line": cl[0]})
+                    continue
+                if len(set(x.get("out") for x in cs)) < 2:
+                    harness_fail.append({"arch": arch, "note": "all keys gave the same output (direct call)", "line": cl[0]})
+                dtr_classes += 1
+                dtr_pairs += n - 1
+                dtr_by_api.setdefault(c[0], set()).add(arch)
+                c = ("direct:" + c[0], list(c[1]), c[2])
+                tsig = "trace:%s:%s:%d" % (arch, c[0], len(c[1]))
+                tname = "trace_%s_direct_%s_%s_%d" % (arch, clist[ci][0], "x".join(str(x) for x in c[1]), c[2])
+            else:
+                tsig = "trace:%s:%s:%d" % (arch, c[0], c[1])
+                tname = "trace_%s_%s_%d_%d" % (arch, c[0], c[1], c[2])
             cmp_classes += 1
             seg_events += sum(s["ni"] + s["nl"] + s["ns"] + s["nm"] for s in segs)
             ref = segs[0]
@@ -616,6 +699,7 @@ def main(tier, seed):
                 diff = [k for k in ("ni", "nl", "ns", "nm", "ihash", "dhash") if s[k] != ref[k]]
                 if diff:
                     viol_tr.append({"arch": arch, "class": list(c), "differs": diff, "line_a": cl[0], "line_b": cl[ki],
+                                    "sig": tsig, "name": tname,
                                     "seg_a": {k: ref[k] for k in ("ni", "nl", "ns", "nm", "ihash", "dhash")},
                                     "seg_b": {k: s[k] for k in ("ni", "nl", "ns", "nm", "ihash", "dhash")}})
                     break
@@ -623,8 +707,8 @@ def main(tier, seed):
             if len(samples) < 4:
                 samples.append({"arch": arch, "class": list(c), "instructions": ref["ni"], "loads": ref["nl"],
                                 "stores": ref["ns"], "distinct_outputs_for_9_keys": len(outs)})
-            # model tie
-            key = "%s/%d/%d/%d" % c
+            # model tie (job classes only: the direct API has no Coq model)
+            key = None if is_direct else "%s/%d/%d/%d" % c
             if key in expect:
                 want, partial = expected_for_binary(c[0], c[2], c[3], expect[key])
                 got = ref.get("mtab", [])
@@ -644,6 +728,8 @@ def main(tier, seed):
     st = {"tasks": 0, "pairs": 0, "steps": 0, "lib_steps": 0, "mem": 0, "undec": 0, "unk": 0, "out_steps": 0, "xst": 0,
           "same_output_tasks": 0}
     step_diffs, step_harness = [], []
+    dst = {"tasks": 0, "pairs": 0, "steps": 0}
+    dstep_by_api = {}
     step_by_variant = {}
     step_samples = []
     for t, r in sresults:
@@ -656,6 +742,14 @@ def main(tier, seed):
         bv["pairs"] += ev["pairs"]
         bv["steps"] += ev["steps"]
         bv["algos"].add(t["algo"])
+        if t.get("direct"):
+            dst["tasks"] += 1
+            dst["pairs"] += ev["pairs"]
+            dst["steps"] += ev["steps"]
+            if not ev["harness"]:
+                dstep_by_api.setdefault(t["api"], set()).add(t["variant"])
+                for c in r["cases"][:1]:
+                    direct_fn.setdefault(t["api"], {})[t["variant"]] = c.get("fn")
         if ev["harness"]:
             step_harness.append({"variant": t["variant"], "class": [t["algo"], t["dir"], t["len"], t["off"]], "batch": t["batch"],
                                  "problem": ev["harness"], "script": r.get("script")})
@@ -672,6 +766,27 @@ def main(tier, seed):
         bv["algos"] = sorted(bv["algos"])
     step_missing = [v for v in common.EXPECTED_VARIANTS if step_by_variant.get(v, {}).get("pairs", 0) == 0]
 
+    # which function each direct entry point of each variant dispatches to (symbol of imb_get_version + reported offset)
+    addr2name = {}
+    for a, n in sy["syms"]:
+        addr2name.setdefault(a, n)
+    direct_dispatch = {}
+    for a, per in sorted(direct_fn.items()):
+        d = {}
+        for v, off in sorted(per.items()):
+            try:
+                o = int(off, 16)
+                o = o - (1 << 64) if o >= 1 << 63 else o
+                nm = addr2name.get(sy["ref"] + o, "?+%x" % (sy["ref"] + o))
+            except (TypeError, ValueError):
+                nm = "?"
+            d.setdefault(nm, []).append(v)
+        direct_dispatch[c19_direct.macro(a)] = d
+    dm_hist = {}
+    for l in dmlines:
+        a = l.split()[1].split(":", 1)[1]
+        dm_hist[c19_direct.macro(a)] = dm_hist.get(c19_direct.macro(a), 0) + 1
+    direct_uncovered = [a for a in c19_direct.API if a not in mcd_by_api or a not in dtr_by_api or a not in dstep_by_api]
     # ---- verdicts ---------------------------------------------------------------------------
     for f in pres["failed"]:
         log("proof obligation failed:", f)
@@ -700,16 +815,22 @@ def main(tier, seed):
                        "signature": sig, "valgrind_what": e0["what"],
                        "source": "%s:%s (%s)" % (fr[1], fr[2], fr[0]) if fr else "?",
                        "valgrind_stack": ["%s (%s:%s) %s %s" % f for f in e0["stack"][:16]], "seed": seed},
-                      note="memcheck %s" % sig, name="memcheck_" + re.sub(r"[^A-Za-z0-9]+", "_", sig)[:60])
+                      note="memcheck %s" % sig, name="memcheck_" + re.sub(r"[^A-Za-z0-9]+", "_", sig)[:110])
         reported = True
-    for v in viol_tr[:4]:
-        sig = "trace:%s:%s:%d" % (v["arch"], v["class"][0], v["class"][1])
+    n_tr = 0
+    for v in viol_tr:
+        if n_tr >= 4:
+            break
+        sig = v.pop("sig")
+        name = v.pop("name")
         if is_known(sig):
             continue
+        n_tr += 1
         v["first_divergence"] = first_divergence(v["arch"], v["line_a"], v["line_b"], symfile, exe, flt,
-                                                 "%s_%s" % (v["arch"], v["class"][0]))
-        v.update({"property": PID, "kind": "instruction / data address trace differs between two keys (lackey)", "seed": seed})
-        res.violation(v, note=sig, name="trace_%s_%s_%d_%d" % (v["arch"], v["class"][0], v["class"][1], v["class"][2]))
+                                                 "%s_%s" % (v["arch"], v["class"][0].replace(":", "_")))
+        v.update({"property": PID, "kind": "instruction / data address trace differs between two keys (lackey)", "seed": seed,
+                  "signature": sig})
+        res.violation(v, note=sig, name=name)
         reported = True
     seen_sig = set()
     for t, ev in step_diffs:
@@ -729,6 +850,8 @@ def main(tier, seed):
                        "tasks_where_all_keys_gave_the_same_output": st["same_output_tasks"], "seed": seed},
                       note="step-harness", name="step_harness")
         reported = True
+    if direct_uncovered and not harness_fail and not step_harness and not step_err:
+        harness_fail.append({"note": "direct entry points without a completed comparison in ties (a)/(b)/(d)", "apis": direct_uncovered})
     if harness_fail:
         res.violation({"property": PID, "kind": "the library job did not complete / the harness crashed or hung under valgrind",
                        "details": harness_fail[:4], "seed": seed}, note="harness", name="harness")
@@ -769,7 +892,19 @@ def main(tier, seed):
         "step_addresses_recorded": st["mem"], "step_opmask_or_vector_register_reads": st["xst"],
         "step_undecoded_operand_steps": st["undec"], "step_unknown_instruction_steps": st["unk"],
         "step_steps_outside_decoded_images": st["out_steps"],
-        "step_classes": sorted(set("%s/%d/%d/%d/b%d" % (t["algo"], t["dir"], t["len"], t["off"], t["batch"]) for t in stasks)),
+        "step_classes": sorted(set(c19_step.class_str(t) for t in stasks)),
+        "direct_entry_points": {
+            "a_memcheck": {c19_direct.macro(a): sorted("%s:f3" % x for x in v) for a, v in sorted(mcd_by_api.items())},
+            "b_lackey": {c19_direct.macro(a): sorted("%s:f3" % x for x in v) for a, v in sorted(dtr_by_api.items())},
+            "d_single_step": {c19_direct.macro(a): sorted(v) for a, v in sorted(dstep_by_api.items())}},
+        "direct_entry_points_not_covered": {"a": sorted(c19_direct.macro(a) for a in c19_direct.API if a not in mcd_by_api),
+                                            "b": sorted(c19_direct.macro(a) for a in c19_direct.API if a not in dtr_by_api),
+                                            "d": sorted(c19_direct.macro(a) for a in c19_direct.API if a not in dstep_by_api)},
+        "direct_memcheck_calls": mcd_cases, "direct_trace_classes": dtr_classes, "direct_trace_key_pairs": dtr_pairs,
+        "direct_step_tasks": dst["tasks"], "direct_step_key_pairs": dst["pairs"], "direct_step_single_steps": dst["steps"],
+        "direct_dispatch": direct_dispatch,
+        "direct_classes_memcheck_histogram": dm_hist,
+        "direct_classes_trace": [c19_direct.class_str(*c) for c in dclasses],
         "step_cases": len(stasks), "step_samples": step_samples,
         "step_operand_tables": {k: v.get("stats") for k, v in optab_info.items()},
         "step_s": round((t_step[1] or 0) - (t_step[0] or 0), 1),
@@ -789,11 +924,27 @@ def main(tier, seed):
                        "in the quick tier the 64-row-scan C paths (DES/3DES/DOCSIS-DES on SSE/AVX2, KASUMI everywhere: the same kernel "
                        "functions for every variant) are sub-sampled per variant for tie (d) (rotating with variant and seed); the "
                        "thorough tier runs every class on every variant",
-                       "des_key_schedule() (key preparation helper, indexes tables by key bytes) is outside the property; the IV is public"]
+                       "des_key_schedule() (key preparation helper, indexes tables by key bytes) is outside the property; the IV is public",
+                       "the direct (non-job) entry points IMB_KASUMI_F8_{1_BUFFER,1_BUFFER_BIT,2_BUFFER,3_BUFFER,4_BUFFER,N_BUFFER}, "
+                       "IMB_KASUMI_F9_{1_BUFFER,1_BUFFER_USER}, IMB_SNOW3G_F8_{1_BUFFER,1_BUFFER_BIT,2_BUFFER,4_BUFFER,8_BUFFER,"
+                       "8_BUFFER_MULTIKEY,N_BUFFER,N_BUFFER_MULTIKEY}, IMB_SNOW3G_F9_1_BUFFER are beyond the literal wording of the "
+                       "property (\"processing a job\"); they are included in ties (a), (b), (d) because they run the multi-buffer forms "
+                       "of the same kernels (kasumi_2/3/4/8_blocks, the 4- and 8-lane SNOW3G clocks) which no job reaches. The key "
+                       "schedule computation (IMB_KASUMI_INIT_F8/F9_KEY_SCHED, IMB_SNOW3G_INIT_KEY_SCHED) is outside the marked "
+                       "region exactly as for jobs; lengths, counts, IVs, pointers are public and identical across the key "
+                       "variants; one key schedule per call, different keys per buffer for the *_MULTIKEY calls. No Coq model: "
+                       "tie (c) does not apply. DES has no direct API besides des_key_schedule()",
+                       "direct calls go through one function pointer of the manager: all 7 variants dispatch KASUMI to the same "
+                       "kasumi_*_sse functions and SNOW3G to one function per architecture (evidence: direct_dispatch); in the quick "
+                       "tier tie (d) therefore traces every KASUMI entry point on one variant (rotating) with 2 keys and every SNOW3G "
+                       "entry point on one variant per architecture with 3..5 keys; tie (a) (taint tracking, not sampling) runs every "
+                       "direct class on both valgrind variants"]
     log("C19: memcheck jobs=%d reports=%d | trace classes=%d pairs=%d | tie ok=%d fail=%d | native: %d variants %d tasks %d pairs "
-        "%d steps undecoded=%d unknown=%d diffs=%d | %.0fs"
+        "%d steps undecoded=%d unknown=%d diffs=%d | direct API: %d entry points, memcheck %d calls, lackey %d classes %d pairs, "
+        "native %d tasks %d pairs %d steps | %.0fs"
         % (mc_cases, mc_err, cmp_classes, cmp_pairs, tie_ok, len(tie_fail), len(step_by_variant) - len(step_missing), st["tasks"],
-           st["pairs"], st["steps"], st["undec"], st["unk"], len(step_diffs), time.time() - t_start))
+           st["pairs"], st["steps"], st["undec"], st["unk"], len(step_diffs), len(c19_direct.API) - len(direct_uncovered),
+           mcd_cases, dtr_classes, dtr_pairs, dst["tasks"], dst["pairs"], dst["steps"], time.time() - t_start))
     return res.finish()
 
 
